@@ -59,6 +59,19 @@ CHECKS = {
         "units": [unit("c05-root", "root", ["zz_verif_c05_test.go"], "^TestVerifC05", shards={"quick": 12, "thorough": 16})],
         "assumptions": ["math/big ProbablyPrime (Baillie-PSW + Miller-Rabin) decides primality in the reference predicate"],
     },
+    "C20": {
+        "level": "model_checking",
+        "units": [
+            unit("c20-engine-selftest", "internal/verif/vsched", [], "^TestVerifEngine"),
+            unit("c20-cred", "root", ["zz_verif_c20_test.go"], "^TestVerifC20Cred$", shards={"quick": 10, "thorough": 16},
+                 instr=["credential.go"], instr_fields={"credential.go": ["nonrevCache"]}),
+            unit("c20-cprng", "internal/common", ["zz_verif_c20_test.go"], "^TestVerifC20CPRNG$", shards={"quick": 8, "thorough": 16},
+                 instr=["internal/common/fastrandom.go"]),
+            unit("c20-race-gabi", "root", ["zz_verif_c20_test.go"], "^TestVerifC20RaceBodies$", race=True, env={"VERIF_RACE": "1"}),
+            unit("c20-race-cprng", "internal/common", ["zz_verif_c20_test.go"], "^TestVerifC20RaceCPRNG$", race=True, env={"VERIF_RACE": "1"}),
+        ],
+        "assumptions": ["Go's memory model: race-free programs are sequentially consistent; the scheduler explores sequentially consistent interleavings of the instrumented points only"],
+    },
     "_FIX": {
         "level": "other",
         "units": [unit("genfix", "root", [], "^TestVerifGenFixtures$", env={"VERIF_GENFIX": "1"}, timeout=1800)],
